@@ -2669,7 +2669,7 @@ def builtin_summary(I, cal, args, node, st):
         r = known_seq_summary(I, cal, name, args, node, st)
         if r is not None:
             return r
-    if ('iterator::Iterator::' in cal or 'core::iter::traits::iterator::Iterator>::' in cal) and args and name in ('skip_while', 'take_while', 'filter', 'skip', 'take', 'count'):
+    if ('iterator::Iterator::' in cal or 'core::iter::traits::iterator::Iterator>::' in cal) and args and name in ('skip_while', 'take_while', 'filter', 'skip', 'take', 'count', 'any', 'all', 'position', 'find'):
         # iterator adaptors over the octets of a literal byte string (std's definitions applied to the known elements):
         #   skip_while(p)  everything from the first element p rejects;   take_while(p)  everything before it;   filter(p)  the elements
         #   p accepts;   skip(n) / take(n)  without / only the first n;   count()  the number of elements.
@@ -2684,6 +2684,26 @@ def builtin_summary(I, cal, args, node, st):
                 return [Out('val', ('lit', len(octs)), st)]
             if name in ('skip', 'take') and len(args) == 2 and args[1][0] == 'lit' and isinstance(args[1][1], int) and not isinstance(args[1][1], bool) and args[1][1] >= 0:
                 return [Out('val', ('lit', octs[args[1][1]:] if name == 'skip' else octs[:args[1][1]]), st)]
+            if name in ('any', 'all', 'position', 'find') and len(args) == 2 and args[1][0] in ('closure', 'fn'):
+                # a search over the known octets: the predicate is applied in order until it decides (any / position / find stop at
+                # the first yes, all at the first no); no model when the predicate does not decide on an element
+                s, okm, hit = st, True, None
+                for i_, x in enumerate(octs):
+                    outs_ = [o for o in I.apply(args[1], [('lit', x)], node, s)]
+                    if len(outs_) != 1 or outs_[0].kind != 'val':
+                        okm = False; break
+                    ds = I.decide(outs_[0].val, outs_[0].st)
+                    if len(ds) != 1:
+                        okm = False; break
+                    s = ds[0][1]
+                    if ds[0][0] == (name != 'all'):
+                        hit = (i_, x); break
+                if okm:
+                    if hit is None:
+                        r_ = {'any': FALSE, 'all': TRUE, 'position': ('ctor', 'None', ()), 'find': ('ctor', 'None', ())}[name]
+                    else:
+                        r_ = {'any': TRUE, 'all': FALSE, 'position': ('ctor', 'Some', (('lit', hit[0]),)), 'find': ('ctor', 'Some', (('lit', hit[1]),))}[name]
+                    return [Out('val', r_, s)]
             if name in ('skip_while', 'take_while', 'filter') and len(args) == 2 and args[1][0] in ('closure', 'fn'):
                 verdicts, s, okm = [], st, True
                 for x in octs:
